@@ -96,4 +96,12 @@ inductive KeyKind where
   | identity
   deriving DecidableEq, Repr
 
+/-- Which most-frequent list `ColumnProfile.__add__` gives the sum when not both sides list values: the left side's
+(already copied into the sum), the other side's, or none. -/
+inductive MfvPick where
+  | mine
+  | theirs
+  | nothing
+  deriving DecidableEq, Repr
+
 end Profile
